@@ -5,6 +5,9 @@ package main
 // documents as trees for the schema validator of the model.
 
 import (
+	"path/filepath"
+	"os"
+	"io"
 	"fmt"
 	"math/rand"
 	"reflect"
@@ -478,6 +481,60 @@ func cmdC16(prop, tier string, seed int64, out, statsOut, replay string) {
 	} {
 		emitStrictCase(w, fmt.Sprintf("edge-%d", i), d, st, "edge document")
 	}
+	// values of the enumerated settings, and near variants of them (a level suffix): every value a packager actually
+	// builds with is a value the schema must allow
+	if prop == "C17" {
+		probes := []struct {
+			format, block, key string
+			values              []string
+		}{
+			{"rpm", "rpm", "compression", []string{"gzip", "lzma", "xz", "zstd", "gzip:9", "zstd:3", "xz:6", "lzma:1", "bzip2", "gzip:x"}},
+			{"deb", "deb", "compression", []string{"gzip", "xz", "zstd", "none", "gzip:9", "zstd:19", "zstd:3", "xz:6", "none:1", "bzip2"}},
+		}
+		for _, pr := range probes {
+			for _, v := range pr.values {
+				doc := fmt.Sprintf("name: probe\narch: amd64\nversion: 1.0.0\n%s:\n  %s: %q\n", pr.block, pr.key, v)
+				if packageInto(doc, pr.format, io.Discard, nil) != nil {
+					continue // the packager refuses the value: nothing the schema has to allow
+				}
+				emitStrictCase(w, fmt.Sprintf("value-%s.%s=%s", pr.format, pr.key, v), doc, st, "a value the packager builds with")
+			}
+		}
+	}
+	// every entry type with and without the optional keys of a content entry (a dir or ghost entry may name a src)
+	if prop == "C17" {
+		dir, err := os.MkdirTemp("", "verif-c17-")
+		must(err)
+		defer os.RemoveAll(dir)
+		self := filepath.Join(dir, "small.txt")
+		must(os.WriteFile(self, []byte("a small source file\n"), 0o644))
+		for _, typ := range []string{"", "file", "dir", "symlink", "tree", "config", "config|noreplace", "config|missingok", "ghost", "doc", "licence", "license", "readme"} {
+			for mask := 0; mask < 8; mask++ {
+				src := self
+				if typ == "tree" {
+					src = dir
+				}
+				entry := map[string]any{"dst": "/opt/probe/entry"}
+				if typ != "" {
+					entry["type"] = typ
+				}
+				if mask&1 != 0 {
+					entry["src"] = src
+				}
+				if mask&2 != 0 {
+					entry["file_info"] = map[string]any{"mode": 0o644, "owner": "root"}
+				}
+				if mask&4 != 0 {
+					entry["packager"] = "rpm"
+				}
+				y, _ := yaml.Marshal(map[string]any{"name": "probe", "arch": "amd64", "version": "1.0.0", "contents": []any{entry}})
+				if packageInto(string(y), "rpm", io.Discard, nil) != nil {
+					continue // not a buildable combination (a file entry without src, ...)
+				}
+				emitStrictCase(w, fmt.Sprintf("entry-%s-%d", typ, mask), string(y), st, "a content entry the packagers build")
+			}
+		}
+	}
 	// environment expansion
 	envs := []map[string]string{
 		{"VX": "X1", "VY": "Y2", "VEMPTY": "", "VVER": "1.2.3-rc1"},
@@ -488,12 +545,15 @@ func cmdC16(prop, tier string, seed int64, out, statsOut, replay string) {
 		{"VX": "x", "VEMPTY": "", "VVER": "1.0", "NFPM_RPM_PASSPHRASE": "rpmpass", "NFPM_APK_PASSPHRASE": "apkpass"},
 		{"VX": "x", "VEMPTY": "", "VVER": "1.0", "NFPM_PASSPHRASE": "g", "NFPM_DEB_PASSPHRASE": "d", "NFPM_RPM_PASSPHRASE": "r", "NFPM_APK_PASSPHRASE": "a"},
 		{"VX": "x", "VEMPTY": "", "VVER": "1.0", "NFPM_PASSPHRASE": "g", "NFPM_APK_PASSPHRASE": "a"},
+		// values that begin or end with blanks: only list items are trimmed
+		{"VX": " x ", "VY": "\ty\n", "VEMPTY": "  ", "VVER": "1.0 "},
 	}
 	for i, e := range envs {
 		emitExpandCase(w, fmt.Sprintf("exp-%d", i), expandDoc, e, st)
 	}
 	// os.Expand syntax corners in one field
-	corners := []string{"$", "$$", "${", "${}", "${VX", "$VX}", "$1", "${1}", "$-x", "a$", "$ VX", "${VX}${VY}", "$VX_Y", "${VX:-d}", "\\$VX", "$*", "${*}", "é$VXé", "$VX$", "100%"}
+	corners := []string{"$", "$$", "${", "${}", "${VX", "$VX}", "$1", "${1}", "$-x", "a$", "$ VX", "${VX}${VY}", "$VX_Y", "${VX:-d}", "\\$VX", "$*", "${*}", "é$VXé", "$VX$", "100%",
+		" lead", "trail ", "  both  ", "line\n", "\ttabbed\t", " $VX ", "two\nlines\n"}
 	for i, c := range corners {
 		y, _ := yaml.Marshal(map[string]any{"name": "n", "description": c, "depends": []string{c, "x" + c + "y"}})
 		emitExpandCase(w, fmt.Sprintf("corner-%d", i), string(y), map[string]string{"VX": "<x>", "VY": "<y>", "VX_Y": "<xy>", "1": "<one>", "*": "<star>", "-": "<dash>"}, st)
